@@ -18,7 +18,7 @@ theorem Graph.set_ne (g : Graph V) {i j : Nat} (n : Node V) (h : j ≠ i) : (g.s
 def StaticEq (a b : Node V) : Prop :=
   match a, b with
   | .param x v, .param y w => x = y ∧ v = w
-  | .struct s, .struct t => s.fn = t.fn ∧ s.scalars = t.scalars ∧ s.arrays = t.arrays ∧ s.reads = t.reads
+  | .struct s, .struct t => s.fn = t.fn ∧ s.scalars = t.scalars ∧ s.arrays = t.arrays ∧ s.next = t.next
   | _, _ => False
 
 theorem StaticEq.rfl' (a : Node V) : StaticEq a a := by
@@ -43,7 +43,7 @@ theorem StaticEq.struct_right {a : Node V} {t : SNode V} (h : StaticEq (.struct 
   have := StaticEq.struct_left h.symm
   exact this
 
-theorem StaticEq.reads_eq {s t : SNode V} (h : StaticEq (.struct s) (.struct t)) : s.reads = t.reads := by
+theorem StaticEq.reads_eq {s t : SNode V} (h : StaticEq (.struct s) (.struct t)) : s.next = t.next := by
   simp only [StaticEq] at h
   exact h.2.2.2
 
@@ -85,33 +85,18 @@ theorem executed_deps (s : SNode V) (g1 : Graph V) (vals : List (Option V)) : (s
 
 /-! ### evaluation never touches parameters, processors or wiring (I3, static part) -/
 
-theorem pull_static (ev : Graph V → Nat → Graph V × Log)
-    (hev : ∀ g d, SameStatic (ev g d).1 g) (g : Graph V) (ds : List Nat) :
-    SameStatic (pull ev g ds).1 g := by
-  induction ds generalizing g with
-  | nil => exact SameStatic.refl g
-  | cons d ds ih =>
-    simp only [pull]
-    exact (ih _).trans (hev g d)
-
-theorem pullM_static (ev : Graph V → Nat → Graph V × Log) (reads : List (Option V) → Bool)
-    (hev : ∀ g d, SameStatic (ev g d).1 g) (g : Graph V) (ds : List Nat) (acc : List (Option V)) :
-    SameStatic (pullM ev reads g ds acc).1 g := by
-  induction ds generalizing g acc with
-  | nil => exact SameStatic.refl g
-  | cons d ds ih =>
-    simp only [pullM]
+theorem pullS_static (ev : Graph V → Nat → Graph V × Log) (next : List (Option V) → Option Nat) (ds : List Nat)
+    (hev : ∀ g d, SameStatic (ev g d).1 g) (n : Nat) (g : Graph V) (es : List (Option V)) :
+    SameStatic (pullS ev next ds n g es).1 g := by
+  induction n generalizing g es with
+  | zero => exact SameStatic.refl g
+  | succ n ih =>
+    simp only [pullS]
     split
-    · exact (ih _ _).trans (hev g d)
-    · exact ih _ _
-
-/-- a processor that reads all its inputs: `pullM` is `pull` -/
-theorem pullM_all (ev : Graph V → Nat → Graph V × Log) (g : Graph V) (ds : List Nat) (acc : List (Option V)) :
-    pullM ev (fun _ => true) g ds acc
-      = ((pull ev g ds).1, acc ++ (pull ev g ds).2.1.map some, (pull ev g ds).2.2) := by
-  induction ds generalizing g acc with
-  | nil => simp [pullM, pull]
-  | cons d ds ih => simp [pullM, pull, ih]
+    · exact SameStatic.refl g
+    · split
+      · exact SameStatic.refl g
+      · exact (ih _ _).trans (hev g _)
 
 theorem eval_static (f : Nat) (g : Graph V) (i : Nat) : SameStatic (eval f g i).1 g := by
   induction f generalizing g i with
@@ -124,7 +109,8 @@ theorem eval_static (f : Nat) (g : Graph V) (i : Nat) : SameStatic (eval f g i).
       split
       · intro j
         dsimp only
-        have hp := pullM_static (fun g d => eval f g d) s.reads (fun g d => ih g d) g s.deps []
+        have hp := pullS_static (fun g d => eval f g d) (s.next s.scalars s.arrays) s.deps (fun g d => ih g d)
+          s.deps.length g (List.replicate s.deps.length none)
         by_cases hj : j = i
         · subst hj
           simp only [Graph.set_same, hs]
@@ -264,23 +250,24 @@ theorem sum_eq_pointwise (ds : List Nat) (f g : Nat → Nat) (hle : ∀ d ∈ ds
     · omega
     · exact ih hle' (by omega) e he
 
-/-! ### `specPull` -/
+/-! ### `specPullS` -/
 
-theorem specPull_congr (ev ev' : Nat → V) (reads : List (Option V) → Bool) (ds : List Nat) (acc : List (Option V))
-    (h : ∀ d ∈ ds, ev d = ev' d) : specPull ev reads ds acc = specPull ev' reads ds acc := by
-  induction ds generalizing acc with
-  | nil => rfl
-  | cons d ds ih =>
-    simp only [specPull]
-    rw [h d (List.mem_cons_self ..)]
-    split <;> exact ih _ (fun e he => h e (List.mem_cons_of_mem _ he))
-
-/-- a processor that reads all its inputs gets the from-scratch value of every dependency -/
-theorem specPull_all (ev : Nat → V) (ds : List Nat) (acc : List (Option V)) :
-    specPull ev (fun _ => true) ds acc = acc ++ ds.map (fun d => some (ev d)) := by
-  induction ds generalizing acc with
-  | nil => simp [specPull]
-  | cons d ds ih => simp [specPull, ih]
+theorem specPullS_congr (ev ev' : Nat → V) (next : List (Option V) → Option Nat) (ds : List Nat) (n : Nat)
+    (es : List (Option V)) (h : ∀ d ∈ ds, ev d = ev' d) :
+    specPullS ev next ds n es = specPullS ev' next ds n es := by
+  induction n generalizing es with
+  | zero => rfl
+  | succ n ih =>
+    simp only [specPullS]
+    split
+    · rfl
+    · rename_i k _
+      cases hd : ds[k]? with
+      | none => rfl
+      | some d =>
+        dsimp only
+        rw [h d (List.mem_of_getElem? hd)]
+        exact ih _
 
 /-! ### fuel independence on ranked graphs -/
 
@@ -320,36 +307,29 @@ theorem evalSpec_fuel (g : Graph V) (hwf : Ranked rank F g) (f1 f2 i : Nat) (h1 
       · rfl
       · rename_i s hs
         congr 1
-        apply specPull_congr
+        apply specPullS_congr
         intro d hd
         have := hwf.2 i s hs d hd
         exact ih f2 d (by omega) (by omega)
 
-theorem pull_congr (ev ev' : Graph V → Nat → Graph V × Log) (g : Graph V) (ds : List Nat)
-    (hst : ∀ g d, SameStatic (ev g d).1 g)
+theorem pullS_congr (ev ev' : Graph V → Nat → Graph V × Log) (next : List (Option V) → Option Nat) (ds : List Nat)
+    (n : Nat) (g : Graph V) (es : List (Option V)) (hst : ∀ g d, SameStatic (ev g d).1 g)
     (h : ∀ g', SameStatic g' g → ∀ d ∈ ds, ev g' d = ev' g' d) :
-    pull ev g ds = pull ev' g ds := by
-  induction ds generalizing g with
-  | nil => rfl
-  | cons d ds ih =>
-    simp only [pull]
-    have h0 := h g (SameStatic.refl g) d (List.mem_cons_self ..)
-    rw [← h0]
-    rw [ih (ev g d).1 (fun g' hg' e he => h g' (hg'.trans (hst g d)) e (List.mem_cons_of_mem _ he))]
-
-theorem pullM_congr (ev ev' : Graph V → Nat → Graph V × Log) (reads : List (Option V) → Bool) (g : Graph V) (ds : List Nat)
-    (acc : List (Option V)) (hst : ∀ g d, SameStatic (ev g d).1 g)
-    (h : ∀ g', SameStatic g' g → ∀ d ∈ ds, ev g' d = ev' g' d) :
-    pullM ev reads g ds acc = pullM ev' reads g ds acc := by
-  induction ds generalizing g acc with
-  | nil => rfl
-  | cons d ds ih =>
-    simp only [pullM]
-    have h0 := h g (SameStatic.refl g) d (List.mem_cons_self ..)
-    rw [← h0]
+    pullS ev next ds n g es = pullS ev' next ds n g es := by
+  induction n generalizing g es with
+  | zero => rfl
+  | succ n ih =>
+    simp only [pullS]
     split
-    · rw [ih (ev g d).1 _ (fun g' hg' e he => h g' (hg'.trans (hst g d)) e (List.mem_cons_of_mem _ he))]
-    · exact ih g _ (fun g' hg' e he => h g' hg' e (List.mem_cons_of_mem _ he))
+    · rfl
+    · rename_i k _
+      cases hd : ds[k]? with
+      | none => rfl
+      | some d =>
+        dsimp only
+        have h0 := h g (SameStatic.refl g) d (List.mem_of_getElem? hd)
+        rw [← h0]
+        rw [ih (ev g d).1 _ (fun g' hg' e he => h g' (hg'.trans (hst g d)) e he)]
 
 theorem eval_fuel (g : Graph V) (hwf : Ranked rank F g) (f1 f2 i : Nat) (h1 : rank i < f1) (h2 : rank i < f2) :
     eval f1 g i = eval f2 g i := by
@@ -364,8 +344,11 @@ theorem eval_fuel (g : Graph V) (hwf : Ranked rank F g) (f1 f2 i : Nat) (h1 : ra
       · rfl
       · rename_i s hs
         rw [outdated_fuel g hwf (f1+1) (f2+1) i h1 h2]
-        have hp : pullM (fun g d => eval f1 g d) s.reads g s.deps [] = pullM (fun g d => eval f2 g d) s.reads g s.deps [] := by
-          apply pullM_congr
+        have hp : pullS (fun g d => eval f1 g d) (s.next s.scalars s.arrays) s.deps s.deps.length g
+              (List.replicate s.deps.length none)
+            = pullS (fun g d => eval f2 g d) (s.next s.scalars s.arrays) s.deps s.deps.length g
+              (List.replicate s.deps.length none) := by
+          apply pullS_congr
           · intro g d; exact eval_static f1 g d
           · intro g' hg' d hd
             have := hwf.2 i s hs d hd
@@ -398,14 +381,15 @@ theorem Outdated_eq (g : Graph V) (hwf : Ranked rank F g) (i : Nat) :
 theorem Spec_eq (g : Graph V) (hwf : Ranked rank F g) (i : Nat) :
     Spec F g i = match g i with
       | .param x _ => x
-      | .struct s => s.fn s.scalars s.arrays (specPull (Spec F g) s.reads s.deps []) := by
+      | .struct s => s.fn s.scalars s.arrays
+          (specPullS (Spec F g) (s.next s.scalars s.arrays) s.deps s.deps.length (List.replicate s.deps.length none)) := by
   obtain ⟨F', rfl⟩ : ∃ F', F = F' + 1 := ⟨F - 1, by have := hwf.1 i; omega⟩
   cases hs : g i with
   | param x v => simp [Spec, evalSpec, hs]
   | struct s =>
     simp only [Spec, evalSpec, hs]
     congr 1
-    apply specPull_congr
+    apply specPullS_congr
     intro d hd
     have := hwf.2 i s hs d hd
     have := hwf.1 i
@@ -417,15 +401,19 @@ theorem Eval_eq (g : Graph V) (hwf : Ranked rank F g) (i : Nat) :
       | .param _ _ => (g, [])
       | .struct s =>
         if Outdated F g i then
-          let r := pullM (Eval F) s.reads g s.deps []
+          let r := pullS (Eval F) (s.next s.scalars s.arrays) s.deps s.deps.length g
+            (List.replicate s.deps.length none)
           (r.1.set i (.struct (s.executed r.1 r.2.1)), r.2.2 ++ [(i, s.version + 1)])
         else (g, []) := by
   obtain ⟨F', rfl⟩ : ∃ F', F = F' + 1 := ⟨F - 1, by have := hwf.1 i; omega⟩
   cases hs : g i with
   | param x v => simp [Eval, eval, hs]
   | struct s =>
-    have hp : pullM (fun g d => eval F' g d) s.reads g s.deps [] = pullM (Eval (F'+1)) s.reads g s.deps [] := by
-      apply pullM_congr
+    have hp : pullS (fun g d => eval F' g d) (s.next s.scalars s.arrays) s.deps s.deps.length g
+          (List.replicate s.deps.length none)
+        = pullS (Eval (F'+1)) (s.next s.scalars s.arrays) s.deps s.deps.length g
+          (List.replicate s.deps.length none) := by
+      apply pullS_congr
       · intro g d; exact eval_static F' g d
       · intro g' hg' d hd
         have := hwf.2 i s hs d hd
@@ -434,23 +422,6 @@ theorem Eval_eq (g : Graph V) (hwf : Ranked rank F g) (i : Nat) :
     simp only [Eval, eval, hs]
     rw [hp]
     rfl
-
-/-- `Struct.Value()` for processors that read all their wired inputs -/
-theorem Eval_eq_all (g : Graph V) (hwf : Ranked rank F g) (hra : ReadsAll g) (i : Nat) :
-    Eval F g i = match g i with
-      | .param _ _ => (g, [])
-      | .struct s =>
-        if Outdated F g i then
-          let r := pull (Eval F) g s.deps
-          (r.1.set i (.struct (s.executed r.1 (r.2.1.map some))), r.2.2 ++ [(i, s.version + 1)])
-        else (g, []) := by
-  rw [Eval_eq g hwf]
-  cases hs : g i with
-  | param x v => rfl
-  | struct s =>
-    dsimp only
-    rw [hra i s hs, pullM_all]
-    simp
 
 end
 
